@@ -16,6 +16,12 @@ The catalogue `Cat` is what a client who only remembers its accepted requests ex
     attempt (the oracle `startOK`); a task is executing iff it is enabled and started;
   * a task that dies at run time (`Op.die`) is no longer started, hence not executing, until its next start;
   * an accepted template update re-synchronises ALL tasks whose template it is; a rejected one NONE.
+  * batch tasks: "its start succeeded" means the start AND the batching succeeded — `startOK` is the three-way oracle
+    of the model's vocabulary (builds ∧ TaskMaster.StartTask accepts ∧ StartBatching accepts); a start whose batching
+    is refused is a failed start: the task is not executing afterwards.
+  * snapshots (`Snaps`): the snapshot saved for a task ID stays stored — through disable / enable, updates, restarts
+    and crashes — until the task is deleted, and a task that is started is restored from the snapshot stored under
+    its ID at that moment.
 The request/answer vocabulary (`Op`, `TaskReq`, `Resp`, `Task`, the oracle `Env`/`startOK`) is shared with the model.
 Core Lean only.
 -/
@@ -121,6 +127,24 @@ def allOrNone (env : Env) (ids : List String) (before after : String → Option 
   let mine := ids.filter (fun i => match before i with | some t => t.tmpl == tid | none => false)
   mine.all (fun i => after i == (before i).map (resync env oldScript newId newScript)) ||
   mine.all (fun i => after i == before i)
+
+/-! ### Task snapshots (Service.SaveSnapshot / HasSnapshot / LoadSnapshot, deleteTask) -/
+
+/-- Stored snapshots as TaskMaster sees them: task ID ↦ payload. -/
+abbrev Snaps := List (String × String)
+
+def Snaps.get (s : Snaps) (id : String) : Option String := (s.find? (fun p => p.1 == id)).map (·.2)
+
+/-- The snapshotter saved a snapshot of task `id`. -/
+def snapSave (s : Snaps) (id payload : String) : Snaps := (id, payload) :: s.filter (fun p => p.1 != id)
+
+/-- The effect of a COMPLETED request on the stored snapshots: only deleting a task removes its snapshot (whatever
+the answer: deleteTask removes the snapshot before it looks the task up); disable / enable, every other update, template
+requests, restarts and run-time deaths leave every snapshot in place. (A rename keeps the snapshot under the OLD ID:
+the code never moves it.) -/
+def snapStep (s : Snaps) : Op → Snaps
+  | .delete id => s.filter (fun p => p.1 != id)
+  | _ => s
 
 /-! ### Recorded deviations (findings/C14.txt): decidable clauses on the input, with the deviated output -/
 
